@@ -31,6 +31,7 @@ fn input_menu(rng: &mut Rng, thorough: bool) -> (InputSpec, Vec<(String, Ty)>) {
         ("mp".into(), XV::M(vec![("a".into(), XV::I(1))])),
         ("nil".into(), XV::N),
         ("age".into(), XV::I(x + 20)),
+        ("limit".into(), XV::I(x + 40)),
     ];
     let refs_all: Vec<(String, Ty)> = val_fields.iter().map(|(k, v)| (k.clone(), ty_of(v))).collect();
     // deeply nested but perfectly serialisable inputs now and then
